@@ -173,4 +173,19 @@ example : prunChk {} [.get 0 0, .put 0, .put 0] = none ∧
     (rrun {} [.get 0 0, .put 0, .put 0, .get 1 0, .get 2 0]).field.lookup 1 = some 0 ∧
     (rrun {} [.get 0 0, .put 0, .put 0, .get 1 0, .get 2 0]).field.lookup 2 = some 0 := by decide
 
+/-- **close_idempotent.** However often `Close` is called — by the wrapped handler, by the deferred call — the effect
+is that of the first call: the compressor's last bytes go out once, the writer goes back to the pool once. -/
+theorem close_idempotent (C : Cfg Z) (x : GWC Z) (n : Nat) :
+    GWC.closeN C (n + 1) x = GWC.close C x := by
+  induction n generalizing x with
+  | zero => rfl
+  | succ k ih =>
+    show GWC.closeN C (k + 1) (GWC.close C x) = GWC.close C x
+    rw [ih]
+    obtain ⟨⟨dec, hdr, down, pool⟩, rel⟩ := x
+    cases rel with
+    | true => rfl
+    | false => cases dec <;> rfl
+
+example : (GWC.closeN toyCfg 3 ⟨GW.run toyCfg { dec := .undecided, hdr := [], down := {}, pool := [] } scriptF1, false⟩).s.pool.length = 1 := by decide
 end Fabio.Props.C17Fault
